@@ -124,6 +124,10 @@ struct M {
     bg_budget: usize,
     /// explore break / unsolicited-frame events (terminal; each costs a full into_handlers of the map)
     with_break: bool,
+    /// lean alphabet (quick tier, pre-filled scenarios, where every transition costs a 32768-allocate rebuild): callers
+    /// are dropped only while their request is written-and-unanswered, and an answered/refused request whose caller is
+    /// still there is consumed at once. The dropped orders are explored by the empty scenario (and by the thorough tier).
+    lean: bool,
     replays: AtomicU64,
     refusals: AtomicU64,
     spurious_refusals: AtomicU64,
@@ -145,9 +149,10 @@ fn response(stream: i16, rid: u64) -> hook::RawResponse {
 }
 
 impl M {
-    fn new(k: usize, prefill: usize, bg_candidates: Vec<i16>, bg_budget: usize, with_break: bool) -> M {
+    fn new(k: usize, prefill: usize, bg_candidates: Vec<i16>, bg_budget: usize, with_break: bool, lean: bool) -> M {
         M {
             with_break,
+            lean,
             k,
             prefill,
             bg_candidates,
@@ -230,6 +235,7 @@ impl Model for M {
                 }
             }
             match q.caller {
+                Caller::Live if self.lean && q.phase != Phase::Written => {}
                 Caller::Live => v.push(Ev::Cancel(q.rid)),
                 Caller::Cancelled => v.push(Ev::Notice(q.rid)),
                 Caller::Noticed => {}
@@ -428,6 +434,14 @@ impl Model for M {
             }
             Ev::Break => self.do_break(o)?,
         }
+        if self.lean {
+            for q in o.reqs.iter_mut() {
+                if matches!(q.phase, Phase::Answered | Phase::Refused) && q.caller == Caller::Live {
+                    q.caller = Caller::Noticed;
+                    q.rx = None;
+                }
+            }
+        }
         // a request that is answered (or refused) and from whose caller nothing more can come is over -
         // unless the map still mentions it (then it stays, so that the canonical form hides nothing)
         if !o.broken {
@@ -566,6 +580,7 @@ impl M {
 }
 
 struct Scenario {
+    lean: bool,
     with_break: bool,
     name: String,
     k: usize,
@@ -575,9 +590,10 @@ struct Scenario {
 }
 
 fn scenarios(thorough: bool) -> Vec<Scenario> {
-    let mut v = vec![Scenario { with_break: true, name: "empty".into(), k: if thorough { 4 } else { 3 }, prefill: 0, bg_candidates: vec![], bg_budget: 0 }];
-    for j in 0..=(if thorough { 2usize } else { 1 }) {
+    let mut v = vec![Scenario { lean: false, with_break: true, name: "empty".into(), k: if thorough { 4 } else { 3 }, prefill: 0, bg_candidates: vec![], bg_budget: 0 }];
+    for j in 0..=2usize {
         v.push(Scenario {
+            lean: !thorough,
             with_break: thorough,
             name: format!("prefill-32768-minus-{j}"),
             k: if thorough { 3 } else { 2 },
@@ -610,7 +626,7 @@ fn run_history(m: &M, events: &[Ev], verbose: bool) -> Result<(), String> {
 }
 
 fn case_json(sc: &Scenario, hist: &[Ev]) -> Value {
-    json!({"leg":"A","scenario":sc.name,"k":sc.k,"prefill":sc.prefill,"bg_candidates":sc.bg_candidates,"bg_budget":sc.bg_budget,"events":hist.iter().map(|e| e.to_s()).collect::<Vec<_>>()})
+    json!({"leg":"A","scenario":sc.name,"k":sc.k,"prefill":sc.prefill,"bg_candidates":sc.bg_candidates,"bg_budget":sc.bg_budget,"lean":sc.lean,"events":hist.iter().map(|e| e.to_s()).collect::<Vec<_>>()})
 }
 
 fn main() {
@@ -630,6 +646,7 @@ fn main() {
             case["bg_candidates"].as_array().map(|a| a.iter().filter_map(|x| x.as_i64()).map(|x| x as i16).collect()).unwrap_or_default(),
             case["bg_budget"].as_u64().unwrap_or(0) as usize,
             true,
+            case["lean"].as_bool().unwrap_or(false),
         );
         let evs: Vec<Ev> = case["events"].as_array().map(|a| a.iter().filter_map(|x| x.as_str()).filter_map(Ev::parse).collect()).unwrap_or_default();
         println!("replaying {} events on a fresh real ResponseHandlerMap (prefill {})", evs.len(), m.prefill);
@@ -644,7 +661,7 @@ fn main() {
         r.finish_replay();
     }
     if r.args.has_flag("--bench-init") {
-        let m = M::new(2, 32768, vec![0], 1, true);
+        let m = M::new(2, 32768, vec![0], 1, true, false);
         for _ in 0..3 {
             let t = std::time::Instant::now();
             let mut o = m.init();
@@ -663,10 +680,19 @@ fn main() {
     }
     let thorough = r.tier().is_thorough();
     let jobs = r.args.jobs;
-    let mut all_fixpoint = true;
-    let mut per_scenario = Vec::new();
-    for sc in scenarios(thorough) {
-        let m = M::new(sc.k, sc.prefill, sc.bg_candidates.clone(), sc.bg_budget, sc.with_break);
+    let all_fixpoint_flag = std::sync::atomic::AtomicBool::new(true);
+    let per_scenario_m: std::sync::Mutex<Vec<(usize, Value)>> = std::sync::Mutex::new(Vec::new());
+    let r_owned = r;
+    let r = &r_owned;
+    // the scenarios run side by side (each BFS layer is parallel inside too): the shallow layers of the pre-filled
+    // scenarios have few states but cost a 32768-allocate rebuild per transition
+    let scs = scenarios(thorough);
+    std::thread::scope(|scope| {
+    for (sc_idx, sc) in scs.iter().enumerate() {
+    let all_fixpoint_flag = &all_fixpoint_flag;
+    let per_scenario_m = &per_scenario_m;
+    scope.spawn(move || {
+        let m = M::new(sc.k, sc.prefill, sc.bg_candidates.clone(), sc.bg_budget, sc.with_break, sc.lean);
         let opts = BfsOpts { max_depth: 200, max_states: 3_000_000, wall: std::time::Duration::from_secs(if thorough { 900 } else { 50 }), jobs, max_violations: 8 };
         let t0 = std::time::Instant::now();
         let res = bfs(&CatchModel(&m), &opts);
@@ -679,7 +705,7 @@ fn main() {
                 vcore::machinery_error(&format!("scenario {}: {}", sc.name, v.what));
             }
             let hist: Vec<String> = v.history.iter().map(|e| e.to_s()).collect();
-            r.violation(&k, &format!("[{}] {t}; history: {}", sc.name, hist.join(" ")), case_json(&sc, &v.history));
+            r.violation(&k, &format!("[{}] {t}; history: {}", sc.name, hist.join(" ")), case_json(sc, &v.history));
         }
         r.states.fetch_add(res.states, Ordering::Relaxed);
         r.transitions.fetch_add(res.transitions, Ordering::Relaxed);
@@ -687,11 +713,11 @@ fn main() {
         let replays = m.replays.load(Ordering::Relaxed);
         r.traces_validated.fetch_add(replays, Ordering::Relaxed);
         if !res.fixpoint {
-            all_fixpoint = false;
+            all_fixpoint_flag.store(false, Ordering::Relaxed);
         }
         // thorough: second run with a different thread count must give identical counts (racy dedup guard)
         if thorough && res.violations.is_empty() {
-            let m2 = M::new(sc.k, sc.prefill, sc.bg_candidates.clone(), sc.bg_budget, sc.with_break);
+            let m2 = M::new(sc.k, sc.prefill, sc.bg_candidates.clone(), sc.bg_budget, sc.with_break, sc.lean);
             let res2 = bfs(&CatchModel(&m2), &BfsOpts { jobs: (jobs / 2).max(1) | 1, ..opts });
             if (res2.states, res2.transitions, res2.max_depth) != (res.states, res.transitions, res.max_depth) {
                 vcore::machinery_error(&format!("scenario {}: BFS counts differ between thread counts: {:?} vs {:?}", sc.name, (res.states, res.transitions), (res2.states, res2.transitions)));
@@ -722,21 +748,27 @@ fn main() {
             replays,
             t0.elapsed().as_secs_f64()
         );
-        per_scenario.push(json!({"scenario":sc.name,"k":sc.k,"prefill":sc.prefill,"states":res.states,"transitions":res.transitions,"max_depth":res.max_depth,"fixpoint":res.fixpoint,"capped":res.capped,"states_per_depth":res.states_per_depth,"wall_s":t0.elapsed().as_secs_f64()}));
+        per_scenario_m.lock().unwrap().push((sc_idx, json!({"scenario":sc.name,"k":sc.k,"prefill":sc.prefill,"states":res.states,"transitions":res.transitions,"max_depth":res.max_depth,"fixpoint":res.fixpoint,"capped":res.capped,"states_per_depth":res.states_per_depth,"wall_s":t0.elapsed().as_secs_f64()})));
         if let Some(h) = res.sample_histories.first() {
-            r.sample(case_json(&sc, h));
+            r.sample(case_json(sc, h));
         }
         if res.fixpoint && res.max_depth < 3 {
             vcore::machinery_error(&format!("scenario {}: frontier emptied at depth {} - vacuous", sc.name, res.max_depth));
         }
+    });
     }
+    });
+    let all_fixpoint = all_fixpoint_flag.load(Ordering::Relaxed);
+    let mut per_scenario = per_scenario_m.into_inner().unwrap();
+    per_scenario.sort_by_key(|(i, _)| *i);
+    let per_scenario: Vec<Value> = per_scenario.into_iter().map(|(_, v)| v).collect();
     r.note("scenarios", json!(per_scenario));
     r.note("fixpoint_all_scenarios", json!(all_fixpoint));
     r.set_exhaustive(all_fixpoint);
     r.set_rule("E-BFS to a fixpoint over environment events {submit, write(allocate), respond(lookup + send through the returned handler), cancel, deliver-notice(orphan), consume, stray notice, answer a pre-filled background request, unsolicited frame(lookup)+break, break(into_handlers)} on the real ResponseHandlerMap; at most K requests alive at once; canonical form = per-request (phase, caller, stream, orphaned) with request ids relabelled by rank + the map's four collections read back through the hook (orphaning Instants dropped: they feed only old_orphans_count, which no event of this alphabet reads). transitions = evaluations. distinct_nontrivial = distinct states in which some stream has BOTH a response owed by the server and its caller's cancellation notice in flight. traces_validated_against_impl = event histories replayed step-checked on a fresh real map (BFS rebuilds every state from its history; thorough adds a full second run with another thread count).");
     r.assume("request ids matter to the map only through equality (relabelling by rank is sound); OrphanageTracker timestamps are not part of the canonical form because none of the explored events reads them");
     r.assume("a spurious refusal (allocate fails while ids are free) or an id leak is not a C02 safety violation; a leak makes the space infinite and is reported as a machinery error, not a verdict");
-    r.finish();
+    r_owned.finish();
 }
 
 /// wraps the model so that a panic inside the real map (e.g. its `assert!(prev_handler.is_none())`) is a reported outcome
